@@ -42,16 +42,9 @@ SortedInvOf(inv) ==
                IN <<[n |-> m, args |-> e.args]>> \o Go(t \ {m})
   IN Go(ns)
 
-RECURSIVE HasMemo(_)
-HasMemo(rc) == CASE rc.r = "memo" -> TRUE
-                 [] rc.r = "alt" -> \E i \in 1..Len(rc.alts) : HasMemo(rc.alts[i])
-                 [] rc.r \in {"junk", "leak"} -> HasMemo(rc.then)
-                 [] rc.r = "bind" -> HasMemo(rc.inner)
-                 [] OTHER -> FALSE
 ReadTag(post, o, r, w) ==
   IF post.poisoned THEN "C13"
-  ELSE IF \E m \in ConeOf(post, {post.onode[o]}, {}) : post.def[m].k = "lhs" /\ HasMemo(post.def[m].recipe) THEN "C20"
-  ELSE IF \E m \in ConeOf(post, {post.onode[o]}, {}) : post.def[m].k = "expert" THEN "C14"
+  ELSE IF ValueTag(post, o) # "C01" THEN ValueTag(post, o)
   ELSE IF r[1] = "ok" /\ w[1] = "ok" THEN "C01"
   ELSE IF (r[1] = "err" /\ r[2] = "ObservingInvalid") \/ (w[1] = "err" /\ w[2] = "ObservingInvalid") THEN "C03"
   ELSE "C10"
@@ -62,6 +55,10 @@ JudgeReads(post, obs) ==
                    /\ obs.reads[x] # RefReadS(post, x)}
   IN {Viol(ReadTag(post, o, obs.reads[o], RefReadS(post, o)),
            <<"observer", o, "reads", obs.reads[o], "expected", RefReadS(post, o)>>) : o \in badObs}
+     \* C07: all observers reflect ONE assignment of variable values (the one current when stabilise
+     \* was called): a wrong value on a node whose cone is exact breaks that as well
+     \cup {Viol("C07", <<"observer", o, "reads", obs.reads[o], "expected", RefReadS(post, o)>>) :
+            o \in {x \in badObs : obs.reads[x][1] = "ok" /\ RefReadS(post, x)[1] = "ok" /\ ~post.poisoned}}
      \* a value before the observer's first stabilise / inside a stabilise is also C07's business
      \cup {Viol("C07", <<"observer", o, "reads", obs.reads[o], "expected", RefReadS(post, o)>>) :
             o \in {x \in badObs : LET w == RefReadS(post, x) IN
@@ -111,6 +108,9 @@ JudgeCut(pre, obs) ==
 JudgeInReads(pre, obs) ==
   LET got == [i \in 1..Len(obs.inreads) |-> [o |-> obs.inreads[i].o, r |-> obs.inreads[i].r]] IN
   IF got = pre.readLog THEN {} ELSE {Viol("C07", <<"reads inside functions", got, "expected", pre.readLog>>)}
+
+\* when the stabilise panicked half-way (e.g. a debug assertion): what did run is still judged
+JudgeInvPartial(pre, obs, coneB) == {v \in JudgeInv(pre, obs, coneB) : v.prop # "C06"}
 
 JudgeVars(post, obs) ==
   {Viol("C08", <<"var", v, "holds", obs.cells[v], "expected", post.cell[v]>>) :
@@ -260,6 +260,7 @@ TraceStep ==
      IF e.a = "reset"
      THEN /\ st' = InitState(Field(e, "maxh", DefaultMaxH))
           /\ UNCHANGED <<nbad, ndiv>>
+          /\ PrintT(<<"RUN", Field(e, "run", 0), l>>)     \* heartbeat: which run is being judged
      ELSE IF e.a = "drop_all"
      THEN /\ st' = st
           /\ nbad' = nbad + Cardinality(JudgeDropAll(e))
@@ -272,6 +273,7 @@ TraceStep ==
               obs == e.obs
               bad == JudgePanic(post, obs)
                      \cup (IF obs.panic # "" /\ ~Ok(post) THEN JudgeReads(Recover(post), obs) ELSE {})
+                     \cup (IF obs.panic # "" /\ Ok(post) /\ e.a = "stabilise" THEN JudgeInvPartial(pre, obs, coneB) ELSE {})
                      \cup (IF obs.panic = "" /\ Ok(post)
                            THEN JudgeReads(post, obs) \cup JudgeVars(post, obs) \cup JudgeRets(post, obs)
                                 \cup (IF e.a = "stabilise" THEN JudgeInv(pre, obs, coneB) \cup JudgeDlv(pre, obs) \cup JudgeInReads(pre, obs) \cup JudgeMemo(pre, obs) \cup JudgeCut(pre, obs) ELSE {})
